@@ -45,13 +45,18 @@ Pr3(id, e) == [k |-> "print", id |-> id, e |-> e, dirs |-> D3]
 NoBody == [has |-> FALSE, body |-> <<>>]
 P1(n) == <<[name |-> n, opt |-> FALSE]>>
 
-One == [params |-> P1("x"), nsa |-> "", ta |-> "",
-        body |-> <<Pr("q1", Var("x")), Tx("A"), Pr3("q2", Var("x"))>>]
+One == [params |-> <<[name |-> "x", opt |-> FALSE], [name |-> "w", opt |-> TRUE]>>, nsa |-> "", ta |-> "",
+        body |-> <<Pr("q1", Var("x")), Pr3("q2", Var("x")),
+                   Pr("q6", [k |-> "elvis", a |-> Var("w"), b |-> [k |-> "str", v |-> "-"]])>>]
 Two == [params |-> P1("xs"), nsa |-> "", ta |-> "",
         body |-> <<[k |-> "foreach", kw |-> "foreach", var |-> "i", e |-> Var("xs"),
                     body |-> <<Pr("q3", Var("i"))>>, empty |-> NoBody]>>]
+\* (two params, not in key order: a tree rewrite such as sorting them in place
+\* would have something to do)
 Three == [params |-> P1("x"), nsa |-> "", ta |-> "",
-          body |-> <<[k |-> "call", tmpl |-> "c.one", data |-> "all", de |-> [k |-> "null"], params |-> <<>>],
+          body |-> <<[k |-> "call", tmpl |-> "c.one", data |-> "none", de |-> [k |-> "null"],
+                      params |-> <<[k |-> "pv", key |-> "x", e |-> Var("x")],
+                                   [k |-> "pv", key |-> "w", e |-> [k |-> "str", v |-> "W"]]>>],
                      Tx("B")>>]
 \* (the message holds only a placeholder: raw text inside a TRANSLATED message
 \* is written from the catalogue without a node of its own, and the harness
@@ -63,7 +68,7 @@ Four == [params |-> P1("x"), nsa |-> "", ta |-> "",
                     Tx("Z")>>]
 
 TheBundle == ("c.one" :> One) @@ ("c.two" :> Two) @@ ("c.three" :> Three) @@ ("c.four" :> Four)
-PrintIds == {"q1", "q2", "q3", "q4", "q5"}
+PrintIds == {"q1", "q2", "q3", "q4", "q5", "q6"}
 
 \* shared data maps
 DataSets == [good |-> [x |-> S("v<"), xs |-> L(<<I(1), I(2)>>)],
